@@ -15,12 +15,12 @@ import (
 )
 
 type CallSite struct {
-	Caller *Func
-	Call   *ast.CallExpr
-	Callee *types.Func // static callee or interface method
-	Targets []*Func    // resolved repository functions (may be empty: library call)
-	InLit  *ast.FuncLit // innermost function literal containing the call, or nil
-	InGo   bool         // the call is (inside) the operand of a go statement
+	Caller  *Func
+	Call    *ast.CallExpr
+	Callee  *types.Func  // static callee or interface method
+	Targets []*Func      // resolved repository functions (may be empty: library call)
+	InLit   *ast.FuncLit // innermost function literal containing the call, or nil
+	InGo    bool         // the call is (inside) the operand of a go statement
 }
 
 type CG struct {
